@@ -10,7 +10,7 @@ import numpy as np
 
 from .. import common as C
 from . import _an
-from .C06 import LD, U, tone, omega_of, hw_bins, viol as _viol, remember, win_opts, ref_window, win_transform, fres_gives
+from .C06 import LD, U, tone, omega_of, hw_bins, viol as _viol, remember, win_opts, ref_window, win_transform, fres_gives, dirichlet_abs
 
 
 def full(P: C.Part) -> bool:
@@ -50,6 +50,10 @@ ASSUMPTIONS = [
     "leakage at rounding level: responses are compared against max(requested level, rounding floor) with floor amplitude "
     "A*S1*u*(4L + 2*sqrt(L)/|sin w|), an empirical (not proved) bound >= 20x the largest rounding error observed for L <= 65536",
     "rounding / fastmath re-association are covered by tolerances, not by theorem",
+    "order 0 (the library default) analyses the sinusoid minus each segment's mean, not a pure sinusoid: the sweeps judge it at the literal level plus the "
+    "amplitude the removed constant can add, cmax*(|W(w)| + sqrt(t)*|W(w0)|) with cmax = A*|D_L(w0)|/L (triangle inequality, W from the independent window; "
+    "measured < 0.1% of the limit); orders 1, 2 are not swept (no such bound). History independence (same request on a fresh analyzer and a pristine copy "
+    "of the record) is compared within twice the rounding floor above: both runs execute the same code on the same numbers",
 ]
 RULE = ("cases: unit-amplitude tone at fractional bin position m0 (at least 1.0001*sqrt(1+alpha^2) bins from 0 and L/2, often exactly there), "
         "L in {64,100,256,1000,4096,16384} (+ odd and larger lengths in thorough), P in [40,200], order -1, single segment (N=L, olap=0) and "
@@ -59,7 +63,15 @@ RULE = ("cases: unit-amplitude tone at fractional bin position m0 (at least 1.00
         "with NON-integer fs/fres = L + eps (0.05 <= |eps| <= 0.45: the library rounds to L samples and reports r = fres), through the method and "
         "the module-level wrapper, default / numba / numpy backend; offsets and the tone position are always in bins of fs/L with L the REPORTED "
         "segment length, and the response is demanded at the frequency that was requested (in Hz). "
-        "distinct by (L, P rounded, side, near/far offset, K class, entry point, request form, backend); non-trivial = the requested level is above the rounding floor")
+        "SWEEPS (call history, the way a user scans around a line): ONE analyzer (method) or ONE record (module-level function) analyses the line, then ~8 offsets on both "
+        "sides in random order, then the line again, for EVERY combination of backend {numpy, numba, auto} x order {-1, 0} x segmentation "
+        "{olap=0 with N = K*L for K = 1, 2, 4, 8; olap=0 with N not a multiple of L; olap=0.5 with N a multiple of L; a random overlap; the default overlap}, "
+        "each through the method and the function every run, requested by `L=`, `fres=fs/L` or a fractional `fres`, record handed in as a contiguous float64 array "
+        "or as a strided view; every response is judged against the literal level AND compared with the same request on a fresh analyzer over a pristine copy "
+        "of the record (a single-bin result does not depend on earlier analyses), and the caller's buffer must be bit-identical afterwards. "
+        "Plans are run on the default / numpy / numba backend and must leave the record untouched too. "
+        "distinct by (L, P rounded, side, near/far offset, K class, entry point, request form, backend) / sweeps by (L, P rounded, segmentation, backend, order, "
+        "entry point, request form); non-trivial = the requested level is above the rounding floor")
 
 SLACK_DB = 0.0
 STATS: Dict[str, Any] = {}
@@ -71,9 +83,9 @@ def floor_amp(A: float, S1: float, L: int, omega: float) -> float:
     return abs(A) * S1 * U * (4.0 * L + 2.0 * math.sqrt(L) / max(abs(math.sin(omega)), 1e-300))
 
 
-def note_margin(margin: float, info) -> None:
-    if "worst" not in STATS or margin < STATS["worst"][0]:
-        STATS["worst"] = (margin, info)
+def note_margin(margin: float, info, key: str = "worst") -> None:
+    if key not in STATS or margin < STATS[key][0]:
+        STATS[key] = (margin, info)
 
 
 # ================================================================ single-bin leakage
@@ -141,17 +153,19 @@ def request_kw(c: Dict[str, Any]) -> Dict[str, Any]:
 ENVELOPE_DB = 1.5   # known finding D12: on the unchanged code the literal P-1 dB level is missed by up to ~1.2 dB in two corners
 
 
-def _judge(P: C.Part, c, sig, XX, XX0, Pdb, A, S1, L, omega, K, info):
+def _judge(P: C.Part, c, sig, XX, XX0, Pdb, A, S1, L, omega, K, info, extra: float = 0.0, stat: str = "worst"):
     """the predicate sqrt(XX) <= sqrt(thr*XX0) + floor at the level the property states, -(P-1) dB (SLACK_DB = 0);
     returns (holds, floor-dominated, limit).  A miss by less than ENVELOPE_DB is labelled `within-1.5dB` in the
-    violation signature (that is the recorded finding D12); a larger miss is labelled `beyond` and is never suppressed."""
+    violation signature (that is the recorded finding D12); a larger miss is labelled `beyond` and is never suppressed.
+    `extra` (0 for order -1, i.e. for every case that existed before the order-0 sweeps) is an amplitude the caller has PROVED to be
+    added by something that is not the sinusoid (the removed segment mean of order 0, see mean_allowance)."""
     thr = 10.0 ** ((-(Pdb - 1.0) + SLACK_DB) / 10.0)
-    fl = floor_amp(A, S1, L, omega)
+    fl = floor_amp(A, S1, L, omega) + extra
     lim = math.sqrt(thr * XX0) + fl
     dominated = math.sqrt(thr * XX0) < 4.0 * fl
     P.hit("leak.floor-dominated" if dominated else "leak.above-floor")
     if XX > 0 and XX0 > 0 and not dominated:
-        note_margin(-(Pdb - 1.0) - 10.0 * math.log10(XX / XX0), info)
+        note_margin(-(Pdb - 1.0) - 10.0 * math.log10(XX / XX0), info, stat)
     holds = math.sqrt(max(XX, 0.0)) <= lim
     lim_env = math.sqrt(10.0 ** ((-(Pdb - 1.0) + ENVELOPE_DB) / 10.0) * XX0) + fl
     sig["envelope"] = "within-1.5dB" if math.sqrt(max(XX, 0.0)) <= lim_env else "beyond"
@@ -231,21 +245,198 @@ def check_leak(P: C.Part, c: Dict[str, Any]) -> None:
     P.sample({"op": "leak", **{k: c[k] for k in ("L", "N", "P", "fs", "m0", "via")}, "request": kw, "K": K, "offsets": [round(d, 3) for d in c["deltas"][:4]]}, cap=3)
 
 
+# ================================================================ sweeps: one analyzer / one record, many analyses in sequence
+# (seeded defect C12e: the NumPy kernels windowed a VIEW of the stored record in place for back-to-back segments, so the first analysis was
+#  right and every later one used the window squared, cubed, ...).  The property quantifies over the whole single-bin path: every backend,
+#  every segmentation of the record, and it is a statement about ONE analysis -- its result cannot depend on what was analysed before.
+SWEEP_CLASSES = ["K2", "K4", "K8", "K1", "default", "half", "rand", "zero-ragged"]
+SWEEP_BACKENDS = ["numpy", "numba", "auto"]
+SWEEP_ORDERS = [-1, 0]
+SWEEP_COMBOS = len(SWEEP_CLASSES) * len(SWEEP_BACKENDS) * len(SWEEP_ORDERS)     # 48; two cases each (method / function) per round
+
+
+def gen_sweep(rng: np.random.Generator, thorough: bool, i: int) -> Dict[str, Any]:
+    """case i of a round of 2*SWEEP_COMBOS: (segmentation class, backend, order) is enumerated, so every run covers every combination through
+    both entry points; everything else is drawn"""
+    combo, rep = i % SWEEP_COMBOS, i // SWEEP_COMBOS
+    cls = SWEEP_CLASSES[combo % len(SWEEP_CLASSES)]
+    backend = SWEEP_BACKENDS[(combo // len(SWEEP_CLASSES)) % len(SWEEP_BACKENDS)]
+    order = SWEEP_ORDERS[combo // (len(SWEEP_CLASSES) * len(SWEEP_BACKENDS))]
+    via = ("method", "func")[(rep + combo) % 2]
+    L = int(rng.choice([64, 100, 256, 1000] + ([65, 127, 1001, 4096] if thorough else [])))
+    P = float(rng.choice([40.0, 60.0, 120.0, 200.0, float(rng.uniform(40, 200)), float(rng.uniform(40, 200))]))
+    dmin = 1.0001 * hw_bins(P)
+    lo, hi = dmin, L / 2 - dmin
+    u = rng.random()
+    m0 = lo if u < 0.1 else hi if u < 0.2 else float(round(rng.uniform(lo + 0.5, hi - 0.5))) if u < 0.3 else float(rng.uniform(lo, hi))
+    k, r = int(rng.integers(2, 5)), int(rng.integers(1, L))
+    N, olap = {"K1": (L, 0.0), "K2": (2 * L, 0.0), "K4": (4 * L, 0.0), "K8": (8 * L, 0.0), "default": (k * L + r - 1, None), "half": (k * L, 0.5),
+               "rand": (k * L + r - 1, float(rng.uniform(0.05, 0.9))), "zero-ragged": (k * L + r, 0.0)}[cls]
+    deltas: List[float] = []
+    for side in (1.0, -1.0):
+        room = min(L / 4.0, (hi - m0) if side > 0 else (m0 - lo))
+        if room < dmin:
+            continue
+        ds = [dmin, max(hw_bins(P) + float(rng.uniform(0.02, 0.3)), dmin), dmin + float(rng.uniform(0, 1.5)), float(rng.uniform(dmin, room))]
+        deltas += [side * min(d, room) for d in ds]
+    deltas = [deltas[j] for j in rng.permutation(len(deltas))]
+    return {"kind": "sweep", "cls": cls, "L": L, "N": int(N), "P": P, "fs": float(rng.choice([1.0, 2.0, 1000.0, float(10 ** rng.uniform(-2, 4))])),
+            "m0": m0, "phi": float(rng.uniform(0, 2 * np.pi)), "A": float(rng.choice([1.0, 1.0, float(10 ** rng.uniform(-3, 3))])),
+            "deltas": deltas, "olap": olap, "order": order, "backend": backend, "via": via,
+            "how": str(rng.choice(["L", "fres", "fres", "fres-frac"])), "q": L + float(rng.choice([-1.0, 1.0])) * float(rng.uniform(0.05, 0.45)),
+            "win": str(rng.choice(["kaiser", "kaiser", "np_kaiser", "sp_kaiser"])), "layout": str(rng.choice(["contig", "contig", "strided"]))}
+
+
+def mean_allowance(A: float, w: np.ndarray, L: int, omega0, omega, Pdb: float) -> float:
+    """order 0 analyses x - mean(x) per segment, which is the sinusoid MINUS a constant c_k with |c_k| <= A*|D_L(w0)|/L (D_L the Dirichlet sum);
+    the constant adds c_k*W(w) to the segment's DFT, so by the triangle inequality in l2 over the segments
+        sqrt(XX_0(w)) <= sqrt(XX_-1(w)) + cmax*|W(w)|   and   sqrt(XX_-1(w0)) <= sqrt(XX_0(w0)) + cmax*|W(w0)|:
+    if the sinusoid obeys the property at level t, the order-0 responses obey it up to cmax*(|W(w)| + sqrt(t)*|W(w0)|).  W from the independent
+    window in extended precision; t taken at the envelope level so that the amount is sound for both labels.  (Measured: < 0.1% of the limit.)"""
+    cmax = abs(A) * dirichlet_abs(L, omega0) / L
+    t = 10.0 ** ((-(Pdb - 1.0) + ENVELOPE_DB) / 20.0)
+    return 1.0001 * cmax * (abs(win_transform(w, omega)) + t * abs(win_transform(w, omega0)))
+
+
+def sweep_record(c: Dict[str, Any]):
+    """(the array handed to the library, the caller's underlying buffer): contiguous float64 (the library may keep a reference: it must not write to
+    it) or a strided view of a larger buffer (the library has to copy)"""
+    x = tone(c["N"], c["A"], omega_of(c["m0"] * c["fs"] / c["L"], c["fs"]), c["phi"])
+    if c.get("layout") == "strided":
+        base = np.full(2 * c["N"], 0.25 * c["A"])
+        base[::2] = x
+        return base[::2], base
+    return x, x
+
+
+def check_sweep(P: C.Part, c: Dict[str, Any]) -> None:
+    import speckit
+    remember(c)
+    L, N, fs, Pdb, m0, A, order, backend = c["L"], c["N"], c["fs"], c["P"], c["m0"], c["A"], c["order"], c["backend"]
+    f0 = m0 * fs / L
+    x, base = sweep_record(c)
+    pristine, base_bytes = np.array(x, dtype=np.float64), base.tobytes()
+    o = dict(win_opts(c["win"], Pdb), order=order)
+    if c["olap"] is not None:
+        o["olap"] = c["olap"]
+    if backend != "auto":
+        o["backend"] = backend
+    kw = request_kw(c)
+    form = "L" if "L" in kw else c["how"]
+    sig0 = {"subclaim": "leakage", "path": "single"}
+    tag = f"{c['cls']},{backend},order={order},{c['via']}"
+    P.cases += 1
+    P.hit(f"sweep.{c['cls']},{backend},order={order}")
+    P.hit(f"sweep.request={form},{c['via']},{c['layout']}")
+
+    def intact() -> bool:
+        if base.tobytes() == base_bytes:
+            return True
+        nbad = int(np.count_nonzero(np.asarray(x) != pristine))
+        viol(P, f"the caller's record was MODIFIED by single-bin analyses ({tag}, request {kw}, N={N}, L={L}, olap={c['olap']}, psll={Pdb}): "
+                f"{nbad} of {N} samples differ from the values handed in", {"subclaim": "record-intact", "path": "single"}, c, changed=nbad)
+        return False
+
+    def fresh(f):
+        xc = pristine.copy()
+        return speckit.SpectrumAnalyzer(xc, fs, **o).compute_single_bin(f, **kw) if c["via"] == "method" else speckit.compute_single_bin(xc, fs, f, **kw, **o)
+    try:
+        an = speckit.SpectrumAnalyzer(x, fs, **o)          # ONE analyzer for the whole sweep (method) / ONE record (function)
+        get = (lambda f: an.compute_single_bin(f, **kw)) if c["via"] == "method" else (lambda f: speckit.compute_single_bin(x, fs, f, **kw, **o))
+        r0 = get(f0)
+    except Exception as ex:  # noqa
+        viol(P, f"single-bin analysis of a tone raised {ex!r} ({tag}, request {kw}, N={N}, psll={Pdb})", dict(sig0, raises=True), c)
+        return
+    if int(np.asarray(r0.L).ravel()[0]) != L:
+        P.hit("sweep.reported-L-differs")      # leakage in the bins of another length is check_leak's business
+        intact()
+        return
+    w = ref_window(c["win"], L, Pdb).astype(LD)
+    S1, S2 = float(w.sum()), float((w * w).sum())
+    for nm, ob, ex in (("S12", float(r0.S12[0]), S1 * S1), ("S2", float(r0.S2[0]), S2)):
+        if not abs(ob - ex) <= 1e-10 * abs(ex):
+            viol(P, f"{nm} = {ob!r} but the DFT-even Kaiser window with beta = kaiser_alpha({Pdb})*pi and length {L} gives {ex!r} ({tag})",
+                 dict(sig0, subclaim="window", field=nm), c, observed=ob, expected=ex)
+            return
+    XX0, K = float(r0.XX[0]), len(r0.D[0])
+    peak = (A / 2 * S1) ** 2
+    if not (0.5 * peak <= XX0 <= 2.0 * peak):
+        viol(P, f"response at the tone's own frequency is {XX0!r}, expected about (A*S1/2)^2 = {peak!r} ({tag})", dict(sig0, subclaim="peak"), c)
+        intact()
+        return
+    omega0 = 2.0 * np.pi * f0 / fs
+    stop = False
+    for n_done, d in enumerate(list(c["deltas"]) + [0.0]):       # ... and back to the line at the end
+        if full(P) or stop:
+            break
+        f = (m0 + d) * fs / L
+        omega = 2.0 * np.pi * f / fs
+        P.cases += 1
+        try:
+            XX = float(get(f).XX[0])
+            XXf = float(fresh(f).XX[0])
+        except Exception as ex:  # noqa
+            viol(P, f"single-bin analysis raised {ex!r} at offset {d} bins ({tag})", dict(sig0, raises=True), c, delta=d)
+            break
+        # (i) a single-bin result does not depend on earlier analyses: the same request on a fresh analyzer and a pristine copy of the record
+        #     runs the same code on the same numbers; both are within the rounding floor of the exact value
+        fl = floor_amp(A, S1, L, omega)
+        if not abs(math.sqrt(max(XX, 0.0)) - math.sqrt(max(XXf, 0.0))) <= 2.0 * fl:
+            viol(P, f"analysis number {n_done + 2} on the same {'analyzer' if c['via'] == 'method' else 'record'} ({tag}, request {kw}, N={N}, K={K}, olap={c['olap']}, "
+                    f"psll={Pdb:.2f}) at {f!r} Hz = {d:+.4f} bins from the tone gives XX = {XX!r}, a fresh analyzer on a pristine copy of the record gives {XXf!r} "
+                    f"({10 * math.log10(max(XX, 1e-320) / max(XXf, 1e-320)):+.2f} dB): the result depends on the analyses made before",
+                 {"subclaim": "history", "path": "single"}, c, delta=d, XX=XX, XX_fresh=XXf, analysis_number=n_done + 2)
+            stop = True
+        if d == 0.0:
+            break
+        # (ii) the property's level, literally, on the analyzer that has the history
+        extra = mean_allowance(A, w, L, omega0, omega, Pdb) if order == 0 else 0.0
+        ok, dominated, lim = _judge(P, c, sig0, XX, XX0, Pdb, A, S1, L, omega, K, {"L": L, "P": Pdb, "m0": m0, "delta": d, "K": K, "order": order, "backend": backend},
+                                    extra=extra, stat="worst" if order == -1 else "worst-order0")
+        if not dominated:
+            P.nontrivial.add(("sweep", L, round(Pdb), c["cls"], backend, order, c["via"], form))
+        if not ok:
+            rel = 10 * math.log10(max(XX, 1e-320) / XX0)
+            viol(P, f"Kaiser psll={Pdb:.2f} dB, L={L} (requested by {kw}, {tag}, N={N}, K={K}, olap={c['olap']}), tone at bin {m0:.4f}, analysis number {n_done + 2} on the same "
+                    f"{'analyzer' if c['via'] == 'method' else 'record'} at {f!r} Hz = {d:+.4f} bins away (main lobe half-width {hw_bins(Pdb):.3f}): response is "
+                    f"{rel:.2f} dB relative to the response at the tone, required <= {-(Pdb - 1):.2f} dB (rounding floor included)",
+                 dict(sig0, side="+" if d > 0 else "-", request=form), c, delta=d, observed_db=rel, XX=XX, XX0=XX0, analysis_number=n_done + 2)
+            if sig0.get("envelope") == "beyond":
+                stop = True
+    intact()
+    P.sample({"op": "sweep", **{k: c[k] for k in ("cls", "L", "N", "P", "order", "backend", "via", "layout")}, "request": kw, "K": K,
+              "offsets": [round(d, 3) for d in c["deltas"][:4]]}, cap=3)
+
+
 # ================================================================ full-plan leakage
 def gen_plan(rng: np.random.Generator, thorough: bool) -> Dict[str, Any]:
     N = int(rng.integers(2000, 20000 if thorough else 6000))
-    return {"kind": "plan", "N": N, "fs": float(rng.choice([1.0, 2.0, 1000.0])), "P": float(rng.choice([60.0, 100.0, 200.0, float(rng.uniform(40, 200))])),
-            "q0": float(rng.uniform(0.05, 0.45)), "phi": float(rng.uniform(0, 6.28)), "Jdes": int(rng.integers(8, 25)), "Kdes": int(rng.choice([1, 2, 5])),
-            "olap": float(rng.choice([0.0, 0.5])), "scheduler": str(rng.choice(_an.SCHEDS)), "Lmin": int(rng.choice([64, 128, 300]))}
+    c = {"kind": "plan", "N": N, "fs": float(rng.choice([1.0, 2.0, 1000.0])), "P": float(rng.choice([60.0, 100.0, 200.0, float(rng.uniform(40, 200))])),
+         "q0": float(rng.uniform(0.05, 0.45)), "phi": float(rng.uniform(0, 6.28)), "Jdes": int(rng.integers(8, 25)), "Kdes": int(rng.choice([1, 2, 5])),
+         "olap": float(rng.choice([0.0, 0.5])), "scheduler": str(rng.choice(_an.SCHEDS)), "Lmin": int(rng.choice([64, 128, 300]))}
+    # the backend (drawn last, so that the cases above are those of earlier runs)
+    c["backend"] = str(rng.choice(["auto", "auto", "auto", "auto", "auto", "numba", "numba", "numpy"]))   # numpy rarely: its plan analyses are ~50x slower
+    return c
 
 
 def check_plan(P: C.Part, c: Dict[str, Any]) -> None:
+    """the plan analysis and the single-bin analyses of the line run on ONE record, as a user's script would; the record must come back untouched"""
+    x = tone(c["N"], 1.0, omega_of(c["q0"] * c["fs"], c["fs"]), c["phi"])
+    before = x.tobytes()
+    _check_plan(P, c, x)
+    if x.tobytes() != before:
+        viol(P, f"the caller's record was MODIFIED by compute_spectrum / compute_single_bin (backend {c.get('backend', 'auto')}, olap={c['olap']}, psll={c['P']}, "
+                f"scheduler {c['scheduler']}, N={c['N']})", {"subclaim": "record-intact", "path": "plan"}, c)
+
+
+def _check_plan(P: C.Part, c: Dict[str, Any], x: np.ndarray) -> None:
     import speckit
     remember(c)
     N, fs, Pdb = c["N"], c["fs"], c["P"]
     f0 = c["q0"] * fs
-    x = tone(N, 1.0, omega_of(f0, fs), c["phi"])
     o = dict(win="kaiser", psll=Pdb, order=-1, olap=c["olap"])
+    if c.get("backend", "auto") != "auto":
+        o["backend"] = c["backend"]
     sig0 = {"subclaim": "leakage", "path": "plan"}
     P.cases += 1
     try:
@@ -289,7 +480,7 @@ def check_plan(P: C.Part, c: Dict[str, Any]) -> None:
     P.hit(f"plan.bins-checked={min(done, 8)}")
 
 
-CHECKS = {"leak": check_leak, "plan": check_plan}
+CHECKS = {"leak": check_leak, "plan": check_plan, "sweep": check_sweep}
 CORPUS = [
     # tightest configurations found on the unchanged tree: short window / high P (first side lobe at -(P-0.94) dB), tone one main lobe from DC at low P
     {"kind": "leak", "L": 64, "N": 64, "P": 195.0, "fs": 1.0, "m0": 8.2, "phi": 0.3, "A": 1.0, "deltas": [8.0234375, 8.5, 9.0, 12.0], "olap": 0.0, "via": "func", "win": "kaiser"},
@@ -297,6 +488,12 @@ CORPUS = [
     # call history: same L, different psll in one process (a stale window would show as leakage or wrong sums)
     {"kind": "leak", "L": 256, "N": 256, "P": 200.0, "fs": 1.0, "m0": 40.3, "phi": 0.0, "A": 1.0, "deltas": [8.2, 9.0, -8.2, -20.0], "olap": 0.0, "via": "func", "win": "kaiser"},
     {"kind": "leak", "L": 256, "N": 256, "P": 60.0, "fs": 1.0, "m0": 40.3, "phi": 0.0, "A": 1.0, "deltas": [3.05, 3.6, -3.05, -20.0], "olap": 0.0, "via": "func", "win": "kaiser"},
+    # seeded defect C12e (wave 5): NumPy backend, back-to-back segments (olap 0, N = K*L), ONE analyzer / ONE record analysed many times: the kernels
+    # windowed a view of the stored record in place, the 2nd, 3rd, ... analysis saw the window squared, cubed, ... (side lobes at -25 ... -40 dB)
+    {"kind": "sweep", "cls": "K8", "L": 256, "N": 2048, "P": 60.0, "fs": 1.0, "m0": 40.37, "phi": 0.7, "A": 1.0, "deltas": [3.07, 3.68, -3.07, 4.29, 9.0], "olap": 0.0,
+     "order": 0, "backend": "numpy", "via": "method", "how": "L", "q": 256.3, "win": "kaiser", "layout": "contig"},
+    {"kind": "sweep", "cls": "K4", "L": 1000, "N": 4000, "P": 200.0, "fs": 1.0, "m0": 123.5, "phi": 0.7, "A": 1.0, "deltas": [8.2, -8.2, 8.7, 12.0], "olap": 0.0,
+     "order": -1, "backend": "numpy", "via": "func", "how": "fres", "q": 1000.3, "win": "kaiser", "layout": "contig"},
 ]
 
 
@@ -375,6 +572,21 @@ def oracle(ctx, intensive: bool = False, hints=()) -> C.Part:
     mult = 4 if intensive else 1
     for c in CORPUS:
         CHECKS[c["kind"]](P, c)
+    # sweeps first (their own generator stream, spawned from ctx.rng WITHOUT consuming it, so the leak / plan cases below are those of earlier
+    # runs): every (segmentation class, backend, order) through both entry points, each round; capped at 25 s per round
+    try:
+        srng = ctx.rng.spawn(1)[0]
+    except Exception:  # noqa  (a generator without a seed sequence)
+        srng = np.random.default_rng([0xC12E, int(getattr(ctx, "seed", 0) or 0)])
+    t0 = time.time()
+    n_sweep = 2 * SWEEP_COMBOS * ctx.scale(1, 4) * mult
+    for i in range(n_sweep):
+        if full(P):
+            break
+        if time.time() - t0 > 25.0 * ctx.scale(1, 4) * mult or ctx.time_left() < 40:
+            P.notes.append(f"sweep: time share reached after {i} of {n_sweep} cases")
+            break
+        check_sweep(P, gen_sweep(np.random.default_rng(int(srng.integers(0, 2 ** 62))), ctx.thorough, i))
     t_all = max(30.0, min(ctx.time_left() - 20.0, (600.0 if ctx.thorough else 70.0) * mult))
     for kind, n, share in (("leak", ctx.scale(400, 4000) * mult, 0.75), ("plan", ctx.scale(40, 300) * mult, 0.25)):
         t0 = time.time()
@@ -387,6 +599,9 @@ def oracle(ctx, intensive: bool = False, hints=()) -> C.Part:
             sub = np.random.default_rng(int(ctx.rng.integers(0, 2 ** 62)))
             c = gen_leak(sub, ctx.thorough, i) if kind == "leak" else gen_plan(sub, ctx.thorough)
             CHECKS[kind](P, c)
+    if "worst-order0" in STATS:
+        mg, info = STATS["worst-order0"]
+        P.notes.append(f"order 0 (sinusoid minus the segment mean; judged with the proved allowance for the removed constant): worst measured margin {mg:+.3f} dB at {info}")
     if "worst" in STATS:
         mg, info = STATS["worst"]
         P.notes.append(f"worst measured margin to the requested -(P-1) dB level over this run: {mg:+.3f} dB at {info} "
